@@ -4,6 +4,7 @@ from qv.core import AnalysisBroken
 from qv.esp import Engine, Outcome, TOP, fs
 from qv.lib import QHooks, _cmp_parts, branch_zero_test, consistent_values, holds_set, unit_callees
 from rules.C12 import StatusHooks, g1
+from rules import libtab
 from qv.esp import Outcome
 
 DASH = ord('-')
@@ -11,93 +12,96 @@ LEN = 4
 DIE = ('strerr_die', 'strerr_die1x', 'strerr_die2x', 'strerr_die3x', 'strerr_die4x', 'strerr_die5x', 'strerr_die6x')
 
 
-class SearchHooks(QHooks):
-    """qmesearch on a fixed geometry: safeext of 4 bytes, each '-' or other"""
-    tracked = frozenset(['G:safeext', 'G:qme'])
-    precise = frozenset(['L:i'])
-
+class SearchHooks(libtab.SAConc, QHooks):
+    """qmesearch on concrete strings: dash "-", an extension given byte by byte; qmeexists() answers "no such file" or "found" """
     def __init__(self):
-        self.sites = {}
-        self.probes = set()
-        self.exact_first = False
+        self.ends = []
 
-    def site(self, inst, x, ok, detail, E):
-        prev = self.sites.get(inst)
-        if prev is None or (prev[0] and not ok):
-            self.sites[inst] = (ok, x.where if x is not None else 'qmail-local.c:qmesearch', detail, E.trace.list() if not ok else [])
-        if not ok:
-            E.kill()
+    def tracked_global(self, path):
+        return True
 
-    def materialize(self, E, path):
-        if path.startswith('G:safeext.s['):
-            return fs(DASH, ord('x'))
-        return TOP
-
-    def _sa(self, E, x):
-        v = E.val(x.args[0])
-        if v is not TOP and len(v) == 1:
-            (a,) = v
-            if isinstance(a, tuple) and a[0] == '&':
-                return a[1]
-        return None
-
-    def prim_stralloc_copys(self, E, x, args):
-        if self._sa(E, x) == 'G:qme':
-            E.set('$name', fs((('lit', x.args[1].string),)))
-        return [Outcome(ret=fs(1))]
-
-    def _add(self, E, item):
-        E.set('$name', fs(tuple(g1(E, '$name', ())) + (item,)))
-        return [Outcome(ret=fs(1))]
-
-    def prim_stralloc_cats(self, E, x, args):
-        if self._sa(E, x) != 'G:qme':
-            return [Outcome(ret=fs(1))]
-        lit = x.args[1].string
-        return self._add(E, ('lit', lit) if lit is not None else ('var', x.args[1].path()))
-
-    def prim_stralloc_cat(self, E, x, args):
-        if self._sa(E, x) != 'G:qme':
-            return [Outcome(ret=fs(1))]
-        return self._add(E, ('sa', x.args[1].src()))
-
-    def prim_stralloc_catb(self, E, x, args):
-        if self._sa(E, x) != 'G:qme':
-            return [Outcome(ret=fs(1))]
-        n = args[2]
-        return self._add(E, ('prefix', x.args[1].path(), next(iter(n)) if n is not TOP and len(n) == 1 else None))
+    def precise_arith(self, path):
+        return True
 
     def prim_qmeexists(self, E, x, args):
-        name = tuple(g1(E, '$name', ()))
-        k = g1(E, '$k', 0)
-        if k == 0:
-            self.site('exact-name-tried-first', x, name == (('lit', '.qmail'), ('var', 'G:dash'), ('sa', '&safeext')),
-                      'first candidate is %s' % (name,), E)
-        else:
-            ok = len(name) == 4 and name[0] == ('lit', '.qmail') and name[1] == ('var', 'G:dash') and name[2][0] == 'prefix' and name[2][1] == 'G:safeext.s' and name[3] == ('lit', 'default')
-            self.site('default-candidates-are-.qmail+dash+prefix+default', x, ok, 'candidate name %s' % (name,), E)
-            if ok:
-                i = name[2][2]
-                dash = None
-                if isinstance(i, int) and i > 0:
-                    v = E.get('G:safeext.s[%d]' % (i - 1))
-                    dash = (v == fs(DASH)) if v is not TOP and len(v) == 1 else None
-                self.probes.add((i, dash))
-                prev = g1(E, '$lasti', 99)
-                self.site('longest-prefix-first', x, isinstance(i, int) and i < prev, 'prefix of %s bytes tried after one of %s bytes' % (i, prev), E)
-                E.set('$lasti', fs(i))
-        E.set('$k', fs(min(k + 1, 9)))
-        return [Outcome(ret=fs(0)), Outcome(ret=fs(1), sets={'$found': fs(1)})]
+        name = self.sa_bytes(E, 'G:qme')
+        seq = tuple(g1(E, '$cands', ())) + (name,)
+        return [Outcome(ret=fs(0), sets={'$cands': fs(seq)}, log='%r does not exist' % name),
+                Outcome(ret=fs(1), sets={'$cands': fs(seq), '$found': fs(len(seq) - 1)}, log='%r exists' % name)]
 
     def prim_env_put2(self, E, x, args):
+        E.set('$env', fs((self.cstring(E, libtab._one(args[0])), self.cstring(E, libtab._one(args[1])))))
         return [Outcome(ret=fs(1))]
 
+    def _die(self, E, x, args):
+        return 'noreturn'
+
+    prim_temp_nomem = prim_temp_qmail = _die
+
     def on_return(self, E, fn, val):
-        if not g1(E, '$found', 0):
-            v = E.get('*qmesearch::P:fd')
-            self.site('no-file-found-sets-fd=-1', None, v == fs(-1), '*fd is %s when nothing was found' % (sorted(v) if v is not TOP else 'unset'), E)
-            # every candidate position was tried
-            E.set('$done', fs(1))
+        if fn.name == 'qmesearch':
+            self.ends.append((tuple(g1(E, '$cands', ())), g1(E, '$found'), g1(E, 'FD'), g1(E, '$env'), E.trace.list()))
+
+
+def search_reference(ext):
+    """dot-qmail(5): .qmail-ext, then .qmail-<prefix>default for every prefix of ext ending in "-" (longest first), then .qmail-default"""
+    out = [(b'.qmail-' + ext, None)]
+    for i in range(len(ext), -1, -1):
+        if i == 0 or ext[i - 1:i] == b'-':
+            out.append((b'.qmail-' + ext[:i] + b'default', i))
+    return out
+
+
+def search_sites(db, rep, prog, maxlen):
+    import itertools
+    qs = prog.fn('qmesearch', 'qmail-local.c')
+    exts = [bytes(t) for n in range(0, maxlen + 1) for t in itertools.product(b'-x', repeat=n)] + [b'a-default', b'default']
+    bad = {}
+    n_ends = 0
+    for ext in exts:
+        H = SearchHooks()
+        eng = Engine(db, prog, H, max_states=300000)
+        fid = eng.frame_id(qs)
+        st = {'%s::%s' % (fid, qs.params[0]): fs(('&', 'FD')), '%s::%s' % (fid, qs.params[1]): fs(('&', 'CUT')),
+              'G:dash': fs(('&', 'DASH[0]')), 'G:ext': fs(('&', 'EXT[0]')), 'G:safeext.s': fs(('&', 'G:safeext.s[0]')), 'G:safeext.len': fs(len(ext))}
+        st.update(libtab.conc_string_cells('DASH', b'-'))
+        st.update(libtab.conc_string_cells('EXT', ext.upper()))          # the extension as written; the search key is its lower-cased copy
+        st.update(libtab.conc_string_cells('G:safeext.s', ext, terminate=False))
+        eng.run(qs, st)
+        rep.count_states(eng.states, eng.transitions)
+        ref = search_reference(ext)
+        names = [r_[0] for r_ in ref]
+        if not H.ends:
+            raise AnalysisBroken('qmesearch: no return reached for extension %r' % ext)
+        for cands, found, fdv, env, tr in H.ends:
+            n_ends += 1
+            what = 'extension %r: ' % ext.decode()
+            if list(cands) != names[:len(cands)]:
+                k = next(i for i in range(len(cands)) if i >= len(names) or cands[i] != names[i])
+                key = 'exact-name-tried-first' if k == 0 else 'default-candidates-in-documented-order(longest-prefix-ending-in-a-dash-first,.qmail-default-last)'
+                bad.setdefault(key, (what + 'candidate %d is %r; documented order %s' % (k + 1, cands[k], [n_.decode() for n_ in names]), tr))
+                continue
+            if found is None:
+                if len(cands) != len(names):
+                    bad.setdefault('every-documented-candidate-is-tried', (what + 'the search gives up after %s; documented candidates %s' % ([c_.decode() for c_ in cands], [n_.decode() for n_ in names]), tr))
+                elif fdv != -1:
+                    bad.setdefault('no-file-found-sets-fd=-1', (what + '*fd is %s when nothing was found' % fdv, tr))
+            else:
+                if found != len(cands) - 1:
+                    bad.setdefault('search-stops-at-the-first-file-found', (what + 'candidate %d exists and the search goes on' % (found + 1), tr))
+                i_ = ref[found][1]
+                want_env = None
+                if i_ is not None:
+                    want_env = ext.upper()[i_:]
+                elif ext.endswith(b'default'):
+                    want_env = ext.upper()[len(ext) - 7:]
+                if want_env is not None and (env is None or env[0] != b'DEFAULT' or env[1] != want_env):
+                    bad.setdefault('DEFAULT=part-of-the-extension-matched-by-default', (what + 'file %r found; DEFAULT is set to %s, documented %r' % (cands[found].decode(), env, want_env.decode()), tr))
+    out = {}
+    for k in ('exact-name-tried-first', 'default-candidates-in-documented-order(longest-prefix-ending-in-a-dash-first,.qmail-default-last)', 'every-documented-candidate-is-tried',
+              'no-file-found-sets-fd=-1', 'search-stops-at-the-first-file-found', 'DEFAULT=part-of-the-extension-matched-by-default'):
+        out[k] = (k not in bad, 'qmail-local.c:qmesearch', bad[k][0] if k in bad else '%d extensions, %d outcomes' % (len(exts), n_ends), bad[k][1] if k in bad else [])
+    return out
 
 
 def run(ctx):
@@ -106,21 +110,8 @@ def run(ctx):
     mainf = prog.fn('main', 'qmail-local.c')
     # ---------------------------------------------------------------- 1. search order
     r1 = rep.rule('C13.1-search-order', 'R-TABLE', 'qmesearch (extension of %d bytes, every dash pattern): exact name first, then prefix+"default" for every prefix ending in "-" from the longest (the whole extension) down to the empty prefix; fd = -1 if nothing exists' % LEN)
-    qs = prog.fn('qmesearch', 'qmail-local.c')
-    H = SearchHooks()
-    eng = Engine(db, prog, H, max_states=300000)
-    eng.keep_dead = True
-    eng.run(qs, {'G:safeext.len': fs(LEN)})
-    rep.count_states(eng.states, eng.transitions)
-    for inst, v in sorted(H.sites.items()):
+    for inst, v in sorted(search_sites(db, rep, prog, LEN).items()):
         r1.check(v[0], inst, v[1], v[2], v[3])
-    always = {i for i, d in H.probes if d is None or i == 0}
-    dashes = {i for i, d in H.probes if d is True}
-    nond = {i for i, d in H.probes if d is False}
-    r1.check(0 in {i for i, d in H.probes}, 'empty-prefix-(.qmail-default)-is-a-candidate', qs.unit + ':qmesearch', 'prefix lengths tried: %s' % sorted(H.probes, key=str))
-    r1.check(set(range(1, LEN + 1)) <= dashes, 'every-prefix-ending-in-a-dash-is-a-candidate,including-the-whole-extension', qs.unit + ':qmesearch',
-             'prefix lengths tried when they end in "-": %s (need 1..%d): an extension ending in "-" must try <ext>default' % (sorted(dashes), LEN))
-    r1.check(not nond, 'prefixes-not-ending-in-a-dash-are-skipped', qs.unit + ':qmesearch', 'tried although not ending in "-": %s' % sorted(nond))
     # safeext = lower-cased ext with '.' -> ':' before the search
     qc = mainf.calls('qmesearch')
     cl = [c for c in mainf.calls('case_lowerb') if 'safeext' in c.args[0].src()]
